@@ -499,6 +499,8 @@ class _PatchingASTWalker:
         if type_params:
             children.extend(["[", *self._child_nodes(type_params, ","), "]"])
         children.extend(["(", node.args, ")"])
+        if node.returns is not None:
+            children.extend(["->", node.returns])
         children.append(":")
         children.extend(node.body)
         self._handle(node, children)
@@ -524,6 +526,8 @@ class _PatchingASTWalker:
             if args:
                 children.append(",")
             children.extend(["*", node.vararg.arg])
+            if node.vararg.annotation is not None:
+                children.extend([":", node.vararg.annotation])
         elif node.kwonlyargs:
             if args:
                 children.append(",")
@@ -535,6 +539,8 @@ class _PatchingASTWalker:
             if args or node.vararg is not None or node.kwonlyargs:
                 children.append(",")
             children.extend(["**", node.kwarg.arg])
+            if node.kwarg.annotation is not None:
+                children.extend([":", node.kwarg.annotation])
         self._handle(node, children)
 
     def _add_args_to_children(self, children, arg, default):
@@ -648,7 +654,10 @@ class _PatchingASTWalker:
         self._handle(node, [str(node.value)])
 
     def _arg(self, node):
-        self._handle(node, [node.arg])
+        children = [node.arg]
+        if node.annotation is not None:
+            children.extend([":", node.annotation])
+        self._handle(node, children)
 
     def _Pass(self, node):
         self._handle(node, ["pass"])
